@@ -30,9 +30,32 @@ def spec(tier):
     )
 
 
+def spec_term(tier):
+    HT = os.path.join(VERIF, "harness", "term")
+    names = ["c02_generic_typed_typed", "c02_generic_literal_hash"]
+    if tier == "thorough":
+        names.append("c02_generic_typed_tagged")   # ~500 s: rdf:langString is a lazily built constant
+    USG = [(r"c02_generic::RecH as std::hash::Hasher>::write$", 60, "loops?"), (r"c02_generic::c02_generic_literal_hash$", 98, "loops?")]
+    hs = [Harness(n, unwind=6 if "hash" not in n else 8, unwindset=USG, extra_cbmc=["--unwindset", "memcmp.0:60"], timeout=400 if tier == "quick" else 2700, mem_gb=14,
+                  optional_covers=("equal literals",) if n.endswith("typed_tagged") else (),
+                  note="two symbolic GenericLiteral<&str>: ==, Ord, PartialOrd, Hash against Term::eq/cmp/hash") for n in names]
+    return kprop.KSpec(
+        package="sophia_term", crate_dir="term",
+        harness_files={"term": [os.path.join(HT, "c02_generic.rs")]},
+        harnesses=hs, jobs=3,
+        encoded=["sophia_term::GenericLiteral: PartialEq, Ord, PartialOrd, Hash (typed x typed in quick; typed x tagged in thorough)"],
+        bounds=["lexical forms {a,b}, datatypes {a,x} (one sorting before, one after rdf:langString), tags {en,EN,fr}"],
+        outside=["tagged x tagged GenericLiterals (LanguageTag::cmp via chars(): 900 s timeout), RcTerm/ArcTerm (Rc/Arc<str> carriers)"],
+    )
+
+
 def run(ctx):
     kprop.run(ctx, spec(ctx.tier))
+    kprop.run(ctx, spec_term(ctx.tier))
 
 
 def replay(ctx, path):
-    return kprop.replay(ctx, spec(ctx.tier), path)
+    import json
+    w = json.load(open(path))
+    sp = spec_term(ctx.tier) if "c02_generic" in w.get("harness", "") else spec(ctx.tier)
+    return kprop.replay(ctx, sp, path)
